@@ -420,7 +420,40 @@ def r10(ctx):
         raise AnalysisBroken('C04.R10: no startArbitration implementation that stores the master address found')
 
 
+def r12(ctx):
+    ctx.rule('C04.R12', 'the own AUTO-SYN counts as a SYN for the lock counter: handleReceive returns early after an AUTO-SYN it '
+             'sent itself and so never reaches the SYN handling that counts m_remainLockCount down; on every path from the '
+             'AUTO-SYN send to that early return the counter is therefore written (reset to 0). With the reset bound to a '
+             'condition, a request re-queued after a lost arbitration is never started again while ebusd is the SYN '
+             'generator of a quiet bus', minimum=1)
+    import rules.C03 as c03
+    fb = ctx.fb
+    fn = fb.fn(A.HR)
+    ctx.touch(fn)
+    c, recvs, rsym = c03.autosyn_sites(fn)
+    flags = []
+    for nid, d, rhs, op, lhs in fn.assignments():
+        if op != '=' or rhs is None or fn.val(rhs) != 1 or not d or d.startswith('this.') or lhs is None:
+            continue
+        if fn.nodes[fn.strip(lhs, casts=True)].get('rk') != 'local':
+            continue
+        if (('(%s == #%d)' % (rsym, c03.SYN), True) in set((a[0], a[1]) for a in fn.atoms(nid))) and \
+                fn.reaches_point(fn.pos(c)[0], fn.pos(nid), set(), start_idx=fn.pos(c)[1] + 1):
+            flags.append(nid)
+    if not flags:
+        raise AnalysisBroken('C04.R12: the flag that marks an own AUTO-SYN in handleReceive was not recognised')
+    lockw = set(nid for nid, d, rhs, op, lhs in fn.assignments() if lhs is not None and fn.key(lhs) == 'this.m_remainLockCount' and
+                (op in ('--', '-=') or (rhs is not None and fn.val(rhs) == 0)))
+    for f in flags:
+        before = not fn.reaches_point(fn.pos(c)[0], fn.pos(f), lockw, start_idx=fn.pos(c)[1] + 1)
+        after = not fn.reaches_point(fn.pos(f)[0], (fn.exit, 0), lockw, start_idx=fn.pos(f)[1] + 1)
+        ok = before or after
+        ctx.ob('C04.R12', fn, f, ok, 'own AUTO-SYN and the lock counter',
+               'the counter is reset/decremented on every path from the send to the mark: %s; or from the mark to the return: %s' % (before, after))
+
+
 def run(ctx):
+    r12(ctx)
     r10(ctx)
     r7(ctx)
     r1(ctx)
